@@ -47,7 +47,7 @@ def run_one(prop, m, keep_output=False):
             path = os.path.join(scratch, m['file'])
             src = open(path).read()
             n = src.count(m['old'])
-            if n != 1:
+            if (n != 1 and not m.get('replace_all')) or n == 0:
                 res.update(status='pattern-missing', detail="text occurs %d times" % n)
                 return res
             open(path, 'w').write(src.replace(m['old'], m['new']))
